@@ -304,7 +304,8 @@ def native_mech_witness(A, D, names):
             full = {'a': np.exp(-b_ * t), 'b': -a_ * t * np.exp(-b_ * t), 'c': t}
             return out, np.stack([full[n_] for n_ in self._req], axis=1)[:, np.newaxis, :]
     seqs = [[{'b': 0.5}], [{'a': 1.0, 'c': 0.3}, {'a': None}], [{'b': 0.5}, {'b': None}], [{'a': 1.0}, {'c': 2.0}, {'a': None, 'c': None}], [{'c': 0.2}, {'c': 0.7}],
-            [{'a': 1.0}, {'a': None, 'b': 0.5}], [{'a': 1.0, 'b': 0.4}, {'a': None, 'c': 0.3}], [{'c': 0.2}, {'c': None, 'a': 1.1}]]      # one call that releases and fixes (same count)
+            [{'a': 1.0}, {'a': None, 'b': 0.5}], [{'a': 1.0, 'b': 0.4}, {'a': None, 'c': 0.3}], [{'c': 0.2}, {'c': None, 'a': 1.1}],      # one call that releases and fixes (same count)
+            [{'c': 0.0}], [{'a': 0}, {'c': 0.5}], [{'b': 0.5}, {'b': 0.0}]]          # the value zero is a value like any other
     t = [0.5, 1.0, 2.0]
     for seq in seqs:
         for sens_first in (False, True):
@@ -436,7 +437,8 @@ def native_pop_witness():
     vals = np.array([0.3, 0.8, 1.1, 0.7])
     psi = rng.normal(size=(3, 2))
     # release: fixing to None restores the previous behaviour, whatever was done before
-    for seq in ([{names[0]: 5.0}, {names[0]: None}], [{names[1]: 5.0, names[2]: 6.0}, {names[2]: None}], [{names[3]: 2.0}, {names[3]: 3.0}, {names[3]: None, names[0]: 1.0}]):
+    for seq in ([{names[0]: 5.0}, {names[0]: None}], [{names[1]: 5.0, names[2]: 6.0}, {names[2]: None}], [{names[3]: 2.0}, {names[3]: 3.0}, {names[3]: None, names[0]: 1.0}],
+                [{names[0]: 0.0}], [{names[0]: 0}, {names[1]: -0.0}], [{names[1]: 2.0}, {names[1]: 0.0}]):          # the value zero is a value like any other (a population mean of 0)
         r = real.ReducedPopulationModel(real.GaussianModel(n_dim=2))
         Af = {}
         for d_ in seq:
